@@ -6,6 +6,7 @@ from engine.astutil import src, call_name, dotted, Guards, compare_parts, enclos
 from engine.flow import Flow, _walk_no_nested
 from engine.linear import form, NotLinear, atom, const
 from engine.loader import AnalysisError
+from . import shape as S
 from .ctxuse import attr_reads, single_defs, ctx_chain, print_sites
 
 META = {
@@ -116,6 +117,13 @@ def run(repo, rep):
 
     # ---------------------------------------------------------------- C11.a
     n = 0
+    # the printers whose every path is judged at the cut and one level above it (C11.b / C11.c below)
+    judged = set()
+    for base_ in ('list', 'tuple', 'set', 'frozenset', 'dict', 'str', 'bytes', 'int', 'float'):
+        try:
+            judged.add(S.printer_for(repo, base_).key)
+        except AnalysisError:
+            pass
     for f, node in attr_reads(repo, ATTR):
         par = enclosing_map(f.node)
         p = par.get(id(node))
@@ -124,9 +132,9 @@ def run(repo, rep):
             other = p.comparators[0] if p.left is node else p.left
             if src(other) == '0' and type(p.ops[0]) in (ast.Eq, ast.LtE, ast.Gt, ast.NotEq, ast.GtE, ast.Lt):
                 use = 'compare with 0'
-            elif isinstance(other, ast.Constant) and type(other.value) is int and other.value > 0 and _is_branch_test(par, p):
-                # a test "more than k levels left" that only selects a branch: what each branch prints at the cut and one level above
-                # it is decided path by path below (C11.b / C11.c), with this test among the path's facts
+            elif isinstance(other, ast.Constant) and type(other.value) is int and other.value > 0 and _is_branch_test(par, p) and f.key in judged:
+                # a test "more than k levels left" that only selects a branch of a printer whose paths are judged below: what each branch
+                # prints at the cut and one level above it is decided there (C11.b / C11.c), with this test among the path's facts
                 use = 'branch on a comparison with %d' % other.value
         elif isinstance(p, ast.BinOp) and isinstance(p.op, ast.Sub) and p.left is node and src(p.right) == '1' \
                 and f.cls is ci:
@@ -160,7 +168,6 @@ def run(repo, rep):
     # string printer with the dict's own context (documented exception, they show up as contextual documents, not as children).
     from engine import docterm as D
     from engine.interp import ValueV, Sym as _Sym, Undecided as _Undecided
-    from . import shape as S
     nc = 0
 
     def subs(t, out):
